@@ -102,6 +102,38 @@ fn clip_typed<A: ClipAttr>(tris: &[[[X; 4]; 3]], attrs: &[[[X; 3]; 3]]) -> Resul
     })
 }
 
+/// Clips once, then clips the *returned* triangles (the very ClipVert values, cached outcodes and all) again.
+fn clip_twice_typed<A: ClipAttr>(tris: &[[[X; 4]; 3]], attrs: &[[[X; 3]; 3]]) -> Result<(Vec<OutTri>, Vec<OutTri>), String> {
+    catch(|| {
+        let input: Vec<Tri<ClipVert<A>>> = tris
+            .iter()
+            .zip(attrs)
+            .map(|(t, a)| {
+                Tri([0, 1, 2].map(|i| {
+                    let p = fs(t[i]);
+                    let c = fs(a[i]);
+                    ClipVert::new(vertex(p.into(), A::make(&c)))
+                }))
+            })
+            .collect();
+        let mut out = vec![];
+        view_frustum::clip(&input[..], &mut out);
+        let mut out2 = vec![];
+        view_frustum::clip(&out[..], &mut out2);
+        let conv = |v: Vec<Tri<ClipVert<A>>>| -> Vec<OutTri> { v.into_iter().map(|Tri(vs)| vs.map(|v| OutV { pos: v.pos.0, attr: v.attrib.comps() })).collect() };
+        (conv(out), conv(out2))
+    })
+}
+
+pub fn clip_twice_case(ty: &str, tris: &[[[X; 4]; 3]], attrs: &[[[X; 3]; 3]]) -> Result<(Vec<OutTri>, Vec<OutTri>), String> {
+    match ty {
+        "f32" => clip_twice_typed::<f32>(tris, attrs),
+        "Vec3" => clip_twice_typed::<Vec3>(tris, attrs),
+        "(f32,Vec2)" => clip_twice_typed::<(f32, Vec2)>(tris, attrs),
+        t => Err(format!("unknown attribute type {t}")),
+    }
+}
+
 pub fn clip_case(ty: &str, tris: &[[[X; 4]; 3]], attrs: &[[[X; 3]; 3]]) -> Result<Vec<OutTri>, String> {
     match ty {
         "f32" => clip_typed::<f32>(tris, attrs),
@@ -195,6 +227,15 @@ pub fn case_strategy(max_tris: usize) -> BoxedStrategy<ClipCase> {
     let ty = prop_oneof![2 => Just("f32"), 1 => Just("Vec3"), 1 => Just("(f32,Vec2)")];
     let exp = prop_oneof![2 => Just(0i32), 1 => Just(-22i32), 1 => Just(-40i32), 1 => Just(30i32), 4 => -60i32..=60];
     (ty, proptest::collection::vec((clip_tri(), [attr3(), attr3(), attr3()]), 1..=max_tris), exp)
+        .prop_map(|(ty, mut ts, scale_exp)| {
+            // a quarter of the batches repeat a triangle's positions bit for bit in the next item, with that item's own
+            // attributes (two coincident triangles of different meshes; multi-pass geometry)
+            if ts.len() >= 2 && scale_exp.rem_euclid(4) == 1 {
+                let k = (scale_exp.unsigned_abs() as usize) % (ts.len() - 1);
+                ts[k + 1].0 = ts[k].0;
+            }
+            (ty, ts, scale_exp)
+        })
         .prop_map(|(ty, ts, scale_exp)| ClipCase {
             ty: ty.to_string(),
             tris: ts.iter().map(|(t, _)| t.map(xs)).collect(),
@@ -498,6 +539,22 @@ pub fn check(c: &ClipCase, obs: &mut Obs) -> Check {
         };
         check_one(&c.ty, t, a, &single, obs)?;
         let p: [[f64; 4]; 3] = t.map(|v| to64(fs(v)));
+        // clipping is idempotent on its own output: what it returned lies inside the frustum, so handing the returned
+        // triangles back must return (up to slivers of rounding size) the same region — nothing may vanish
+        if !single.is_empty() {
+            let (o1, o2) = match clip_twice_case(&c.ty, std::slice::from_ref(t), std::slice::from_ref(a)) {
+                Ok(o) => o,
+                Err(p) => fail!("clip-panic", "view_frustum::clip panicked when given its own output: {p}"),
+            };
+            // the re-clipped output must satisfy the same oracle with respect to the ORIGINAL triangle: every point that is
+            // inside the frustum by a margin is still covered, nothing outside is, attributes are the input's linear field
+            // (comparing areas would be ill-conditioned for triangles nearly coplanar with a frustum plane)
+            obs.class("re-clip of the output checked");
+            let _ = o1;
+            if let Err(f) = check_one(&c.ty, t, a, &o2, &mut Obs::frozen_scratch()) {
+                fail!("reclip-changes-the-region", "clipping the triangles that clip returned (the returned vertices themselves) violates the oracle for the original triangle: [{}] {}", f.sig, f.msg);
+            }
+        }
         let codes = p.map(outcode64);
         if (codes[0] | codes[1] | codes[2]) != 0 && (codes[0] & codes[1] & codes[2]) == 0 && !single.is_empty() {
             nontrivial = true;
@@ -548,6 +605,9 @@ pub fn check(c: &ClipCase, obs: &mut Obs) -> Check {
         _ => "attr:(f32,Vec2)",
     });
     obs.class(if c.tris.len() > 1 { "batch>1" } else { "batch=1" });
+    if c.tris.windows(2).zip(c.attrs.windows(2)).any(|(t, a)| t[0].iter().flatten().map(|x| x.0.to_bits()).eq(t[1].iter().flatten().map(|x| x.0.to_bits())) && a[0] != a[1]) {
+        obs.class("batch: consecutive items with identical positions and different attributes");
+    }
     if nontrivial {
         obs.nontrivial(hash_of(&(&c.ty, &c.tris, &c.attrs)));
         if obs.wants_sample() {
